@@ -1,6 +1,9 @@
 //! nbharness — runs request lines (one per stdin line: `<stream> <op> <arg>*`) against the
 //! real num-bigint built from /repo's working tree and prints one canonical result line each.
 mod wire;
+mod c13;
+mod c12;
+mod c11;
 mod c07;
 mod c03;
 mod c08;
@@ -33,6 +36,9 @@ fn handlers() -> Vec<(&'static str, Handler)> {
         ("C08", c08::handle as Handler),
         ("C03", c03::handle as Handler),
         ("C07", c07::handle as Handler),
+        ("C11", c11::handle as Handler),
+        ("C12", c12::handle as Handler),
+        ("C13", c13::handle as Handler),
     ]
 }
 
